@@ -241,6 +241,25 @@ theorem strict_source_equiv (dflt : Opts) (A : Changes) (k : Str) (v : Val) (x :
   · have hb : (x == k) = false := by simpa using h
     simp [hb, List.lookup_cons]
 
+/-! ### value conversion -/
+
+/-- **per-entry expansion**: whatever separator of the option is used to write them, the entries come out
+    stripped and expanded one by one, at every position -/
+theorem convPathList_entries (expand : Str → Str) (seps : List Char) (sep : Char) (hs : seps.contains sep = true)
+    (es : List Str) (hne : es ≠ []) (hfree : ∀ e ∈ es, ∀ c ∈ e, seps.contains c = false) :
+    convPathList expand seps (joinWith sep es) = es.map (fun e => expand (strip e)) := by
+  unfold convPathList
+  rw [splitOnAny_joinWith seps sep hs es hne hfree]
+
+/-- expanding the whole value first and splitting afterwards is a different function: only the first entry's
+    `~` is expanded (what the seeded change C17-4 did) -/
+theorem not_expand_whole_then_split :
+    (splitOnAny [',', ':'] (expandUser "/H".toList "~/a,~/b".toList)).map strip ≠
+      convPathList (expandUser "/H".toList) [',', ':'] "~/a,~/b".toList := by decide
+
+example : convPathList (expandUser "/H".toList) [',', ':'] "~/a, ~/b:c".toList =
+    ["/H/a".toList, "/H/b".toList, "c".toList] := by decide
+
 /-! ### from the config file to the section table -/
 
 /-- a section applies to each of its patterns: when no pattern is named by two sections, `mypy.ini` /
